@@ -503,6 +503,27 @@ Definition dispatch_cmp (c : mcfg) (op : tok) (args : list tok) : option (list t
         end
     | _ => Some bad
     end
+  else if is_sym op "laws" then
+    match args with
+    | [vt; TB a; TB b] =>
+        match variant_of vt with
+        | Some v =>
+            Some (with_hash c v a (fun ha => with_hash c v b (fun hb =>
+              let ca := clear_checksum ha in let cb := clear_checksum hb in
+              match @compare unit cc ha hb CmpDefault, @compare unit cc hb ha CmpDefault, @compare unit cc ha hb CmpNoLength,
+                    @compare unit cc hb ha CmpNoLength, @compare unit cc ha ha CmpDefault, @compare unit cc hb hb CmpNoLength,
+                    @dist_length unit cc (h_len ha) (h_len hb), @compare unit cc ca cb CmpDefault, @compare unit cc ca cb CmpNoLength with
+              | Ok d1, Ok d2, Ok d3, Ok d4, Ok d5, Ok d6, Ok d7, Ok d8, Ok d9 =>
+                  [TN d1; TN d2; TN d3; TN d4; TN d5; TN d6; TN d7; TN d8; TN d9;
+                   TN (lenN (filter (fun p => negb (fst p =? snd p)) (combine (h_cks ha) (h_cks hb))));
+                   TN (max_distance v CmpDefault); TN (max_distance v CmpNoLength);
+                   TN (if list_eqb (hash_bytes ha) (hash_bytes hb) then 1 else 0); TN d1]
+              | _, _, _, _, _, _, _, _, _ => bad
+              end)))
+        | None => Some bad
+        end
+    | _ => Some bad
+    end
   else if is_sym op "maxdist" then
     match args with
     | [vt; mt] =>
